@@ -348,10 +348,15 @@ Lemma root_fields_named G i all fs f e r :
   match find_field all f with
   | Some x =>
       guard (existsb (fun y => fst y =? o_id f) fs) (o_nid f) Other ;;;
+      guard (negb (args_has_pos r)) (o_nid f) Conservative ;;;
       root md GE G (snd x) e ;;;
       root_fields md GE G i all (filter (fun y => negb (fst y =? o_id f)) fs) r
   | None => Bad (o_nid f) UnknownField
   end.
+Proof. reflexivity. Qed.
+Lemma root_fields_others G i all ft fs e :
+  root_fields md GE G i all (ft :: fs) (ACons ChOthers e ANil) =
+  (guard (forallb (fun y => sty_eqb (snd y) (snd ft)) fs) (head_nid e) Other ;;; root md GE G (snd ft) e).
 Proof. reflexivity. Qed.
 Lemma root_elems_nil G i el n :
   root_elems md GE G i el n ANil = guard (match n with O => true | _ => false end) i Other.
@@ -489,8 +494,11 @@ Proof.
     intros all ft fs e r _ IHe _ IHr i. unfold Pr in IHe.
     rewrite root_fields_pos, IHe. cbn [bind]. apply IHr.
   - (* FO_Named *)
-    intros all fs f x e r Hfind Hex _ IHe _ IHr i. unfold Pr in IHe.
-    rewrite root_fields_named, Hfind, Hex, IHe. cbn [guard bind]. apply IHr.
+    intros all fs f x e r Hfind Hex Hnp _ IHe _ IHr i. unfold Pr in IHe.
+    rewrite root_fields_named, Hfind, Hex, Hnp, IHe. cbn [guard bind negb]. apply IHr.
+  - (* FO_Others *)
+    intros all ft fs e Hsame _ IHe i. unfold Pr in IHe.
+    rewrite root_fields_others, Hsame. cbn [guard bind]. exact IHe.
   - (* EO_Nil *) intros el i. reflexivity.
   - (* EO_Pos *)
     intros el n e r _ IHe _ IHr i. unfold Pr in IHe.
